@@ -285,6 +285,31 @@ def replay(iset, memarch, nregions, inputs, ob):
         keep = {k: (_h(init[k]), _h(final[k])) for k in final if k.startswith('R.') and final[k] != init[k] and k not in ('R.PC', 'R.LRabt', 'R.LRmon', 'R.LRusr')}
         lines.append('registers changed although the access aborted: %s' % keep)
         bad = bool(keep) or bool(sc.writes and not type(eo).__name__.startswith('Strd'))
+    elif kind == 'decode.total':
+        from spec import encodings as ENC
+        from spec.cpu import Cpu
+        want = 'arm' if iset == 'arm' else ('t16' if iset == 'thumb16' else 't32')
+        instr = inputs['instr']
+        st0 = dict(init)
+        cfgs = registry.mods().configurations.configurations.configs
+        for k in MC.CFG_BOOL + list(MC.CFG_INT):
+            st0['cfg.' + k] = cfgs.get(k)
+
+        class ZeroMem:
+            def read(self, *a):
+                return 0
+
+            def write(self, *a):
+                pass
+        base = Cpu(st0, 'arm' if iset == 'arm' else 'thumb', instr, 16 if iset == 'thumb16' else 32, ZeroMem())
+        valid = []
+        for r in ENC.TABLE.rows:
+            if r.iset == want and r.match(instr):
+                unp, und = STEP.row_unpred_undef(r, instr, base)
+                if not unp and not und:
+                    valid.append(r.cls)
+        lines.append('no opcode object was built (Undefined Instruction exception) for a word the table assigns to: %s' % valid)
+        bad = bool(valid) and eo is None
     elif kind in ('decode.fields', 'decode.exec'):
         from spec import encodings as ENC
         from spec.cpu import Cpu
